@@ -642,6 +642,7 @@ def c07_groups(tier, tag='C07'):
     for K in ([1, 2] if tier == 'quick' else [1, 2, 3]):
         gs.append(Group('%s.tLweKeyGen.k=%d' % (tag, K), 'c03_encrypt.c', 'h_tLweKeyGen', extract=[(TL, 'tLweKeyGen', S_)], loops=True,
                         defines={'H_TLWEKEYGEN': None, 'VERIF_K': K}, instance={'k': K}, replay=('keygen', 'tlwe')))
+    gs.append(Group(tag + '.torusPolynomialUniform', 'c03_encrypt.c', 'h_torusPolynomialUniform', extract=[(TF, 'torusPolynomialUniform', S_)], loops=True, defines={'H_POLYUNIFORM': None}))
     gs.append(Group(tag + '.tGswKeyGen.k=1', 'c03_encrypt.c', 'h_tLweKeyGen', extract=[(TL, 'tLweKeyGen', S_), (TG, 'tGswKeyGen')], loops=True,
                     defines={'H_TLWEKEYGEN': None, 'VERIF_K': 1, 'VIA_TGSW': None}, instance={'k': 1}, replay=('keygen', 'tgsw')))
     gs.append(Group(tag + '.tGswSymEncrypt+tGswEncryptB', 'c03_encrypt.c', 'h_tGswWrappers', extract=[(TG, 'tGswSymEncrypt'), (TG, 'tGswEncryptB')], defines={'H_TGSWWRAP': None}))
